@@ -94,6 +94,63 @@ theorem resolve_inside (D : Path) (s : FS)
               · exact ht hm
               · exact hrest hm
 
+/-! ### fuel -/
+
+/-- **Fuel monotonicity**: an answer other than "fuel exhausted" is the answer for every larger fuel. -/
+theorem resolve_fuel_mono (D : Path) (s : FS) : ∀ (fuel : Nat) (cur : Path) (cs : List String) (x : Except RErr Path),
+    resolve D s fuel cur cs = x → x ≠ .error .loop → ∀ k, resolve D s (fuel + k) cur cs = x := by
+  intro fuel
+  induction fuel with
+  | zero => intro cur cs x h hx; simp [resolve] at h; exact absurd h.symm hx
+  | succ fuel ih =>
+    intro cur cs x h hx k
+    rw [show fuel + 1 + k = (fuel + k) + 1 by omega]
+    cases cs with
+    | nil => simp [resolve] at h ⊢; exact h
+    | cons c rest =>
+      unfold resolve at h ⊢
+      split
+      · rename_i hc; rw [if_pos hc] at h; exact ih cur rest x h hx k
+      · rename_i hc; rw [if_neg hc] at h
+        split
+        · rename_i hd; rw [if_pos hd] at h; exact ih _ rest x h hx k
+        · rename_i hd; rw [if_neg hd] at h
+          split
+          · rename_i ht; rw [if_pos ht] at h; exact h
+          · rename_i ht; rw [if_neg ht] at h
+            cases hg : s.get (cur ++ [c]) with
+            | none => rw [hg] at h; exact h
+            | some o =>
+              rw [hg] at h
+              cases o with
+              | dir => exact ih _ rest x h hx k
+              | file cid => exact h
+              | link t => exact ih _ _ x h hx k
+
+/-- **Adequacy without links**: a path that meets no symbolic link is decided by one unit of fuel per component. -/
+theorem resolve_nolink_adequate (D : Path) (s : FS) (hnl : ∀ p t, s.get p ≠ some (.link t)) :
+    ∀ (cs : List String) (cur : Path) (k : Nat), resolve D s (cs.length + 1 + k) cur cs ≠ .error .loop := by
+  intro cs
+  induction cs with
+  | nil => intro cur k; rw [show ([] : List String).length + 1 + k = k + 1 by simp; omega]; simp [resolve]
+  | cons c rest ih =>
+    intro cur k
+    rw [show (c :: rest).length + 1 + k = (rest.length + 1 + k) + 1 by simp; omega]
+    unfold resolve
+    split
+    · exact ih cur k
+    · split
+      · exact ih _ k
+      · split
+        · simp
+        · cases hg : s.get (cur ++ [c]) with
+          | none => simp
+          | some o =>
+            cases o with
+            | dir => exact ih _ k
+            | file cid => by_cases hr : rest = [] <;> simp [hr]
+            | link t => exact absurd hg (hnl _ t)
+
 theorem Safe_put {D : Path} {s0 s : FS} (hS : Safe D s0 s) {q : Path} (hq : isPrefix D q = true)
     (hnone : s.get q = none) (o : Obj) (ho : ∀ t, o = .link t → ".." ∉ t.comps) : Safe D s0 (s.put q o) := by
   obtain ⟨h1, h2, h3⟩ := hS
@@ -129,11 +186,11 @@ theorem mkdir1_safe {D : Path} {s0 s : FS} (hS : Safe D s0 s) (rel : List String
   | none => exact hS
   | some name =>
     simp only
-    cases hres : resolve D s fuel0 D rel.dropLast with
+    cases hres : resolveA D s D rel.dropLast with
     | error e => exact hS
     | ok pp =>
       have hpp : isPrefix D pp = true :=
-        resolve_inside D s hS.2.1 fuel0 D rel.dropLast pp (isPrefix_refl D)
+        resolve_inside D s hS.2.1 _ D rel.dropLast pp (isPrefix_refl D)
           (fun hm => hrel (List.dropLast_subset rel hm)) hres
       simp only
       split
@@ -196,7 +253,7 @@ theorem unpackStep_safe {D : Path} {s0 s : FS} (hS : Safe D s0 s) (e : TarEntry)
           | false => exact hS1
           | true =>
             simp only
-            cases hres : resolve D s1 fuel0 D rel.dropLast with
+            cases hres : resolveA D s1 D rel.dropLast with
             | error err => exact hS1
             | ok pp =>
               simp only
@@ -216,11 +273,11 @@ theorem unpackStep_safe {D : Path} {s0 s : FS} (hS : Safe D s0 s) (e : TarEntry)
         · exact hS1
         · split
           · exact hS1
-          · cases hres : resolve D s1 fuel0 D rel.dropLast with
+          · cases hres : resolveA D s1 D rel.dropLast with
             | error err => exact hS1
             | ok pp =>
               have hpp : isPrefix D pp = true :=
-                resolve_inside D s1 hS1.2.1 fuel0 D rel.dropLast pp (isPrefix_refl D) hpar hres
+                resolve_inside D s1 hS1.2.1 _ D rel.dropLast pp (isPrefix_refl D) hpar hres
               simp only
               split
               · exact hS1
